@@ -9,22 +9,28 @@ namespace C05
 open Gen Model
 
 theorem strip_sublist (path : List Point64) (closed : Bool) : (stripDuplicates path closed).Sublist path := by
-  sorry
+  exact Proofs.C05.strip_sublist path closed
 
 theorem strip_no_adjacent_dups (path : List Point64) (closed : Bool) :
     ∀ i, (h : i + 1 < (stripDuplicates path closed).length) →
       (stripDuplicates path closed)[i] ≠ (stripDuplicates path closed)[i + 1] := by
-  sorry
+  exact Proofs.C05.strip_no_adjacent_dups path closed
 
 theorem strip_closed_ends_differ (path : List Point64) (h : 1 < (stripDuplicates path true).length) :
     (stripDuplicates path true).head? ≠ (stripDuplicates path true).getLast? := by
-  sorry
+  exact Proofs.C05.strip_closed_ends_differ path h
 
-/-- a path without repeated points is returned unchanged -/
-theorem strip_id (path : List Point64) (closed : Bool)
+/-- a path without repeated points is returned unchanged — except a ONE-point closed path, which
+    StripDuplicates empties (its only point "equals the first point" and is removed): the statement
+    without `h3` is false, witness `[⟨0,0⟩]` (Proofs.C05.strip_id_counterexample); replayed on the real
+    code by the models-corr stage, which compares StripDuplicates with this model on such inputs -/
+theorem strip_id_partial (path : List Point64) (closed : Bool)
     (h1 : ∀ i, (h : i + 1 < path.length) → path[i] ≠ path[i + 1])
-    (h2 : closed = true → 1 < path.length → path.head? ≠ path.getLast?) :
-    stripDuplicates path closed = path := by
-  sorry
+    (h2 : closed = true → 1 < path.length → path.head? ≠ path.getLast?)
+    (h3 : closed = true → path.length ≠ 1) :
+    stripDuplicates path closed = path :=
+  Proofs.C05.strip_id_fixed path closed h1 h2 h3
+
+theorem strip_one_point_closed_emptied : stripDuplicates [(⟨0, 0⟩ : Point64)] true = [] := by decide
 
 end C05
